@@ -424,6 +424,61 @@ pub fn run(ctx: &Ctx) -> Rep {
     let (r2b, x2b) = merge_states(s2b);
     rep.merge(r2b);
 
+    // ---- (2d) hands drawn from one or two ranks, one duplicate at every position pair ----------------------
+    // All slots hold cards of at most two ranks (so that anything keyed by a field of the word - rank nibble, rank
+    // bit, prime - collides as much as it can); exactly two slots (every pair i < j) hold the same card. Every
+    // pair of ranks, several seeded arrangements. Also the duplicate-free version (a valid hand when it fits).
+    let mut rank_pairs: Vec<(u8, u8)> = Vec::new();
+    for a in 0..13u8 {
+        for b in a..13u8 {
+            rank_pairs.push((a, b));
+        }
+    }
+    let s2d = par_run(ctx, rank_pairs.len(), mk, |st, ri| {
+        if ctx.smoke() && ri % 13 != 0 {
+            return;
+        }
+        let (ra, rb) = rank_pairs[ri];
+        let mut rng = Rng::new(seed, 0xC04_1D00 + ri as u64);
+        let mut pool: Vec<u32> = Vec::new();
+        for s in 0..4u8 {
+            pool.push(model::word(model::idx(ra, s)));
+            if rb != ra {
+                pool.push(model::word(model::idx(rb, s)));
+            }
+        }
+        for n in 2..=7usize {
+            if n - 1 > pool.len() {
+                continue;
+            }
+            for i in 0..n {
+                for j in (i + 1)..n {
+                    for _ in 0..k_inst {
+                        rng.shuffle(&mut pool);
+                        let mut h = [0u32; 7];
+                        let mut k = 0;
+                        for s in 0..n {
+                            if s == j {
+                                continue;
+                            }
+                            h[s] = pool[k];
+                            k += 1;
+                        }
+                        h[j] = h[i];
+                        check_hand(st, &h[..n]);
+                        st.x.patterns[n] += 1;
+                    }
+                }
+            }
+            if n <= pool.len() {
+                rng.shuffle(&mut pool);
+                check_hand(st, &pool[..n]);
+            }
+        }
+    });
+    let (r2d, x2d) = merge_states(s2d);
+    rep.merge(r2d);
+
     // ---- (2c) cancellation families ---------------------------------------------------------------------
     // Hands whose non-card words cancel under XOR or under wrapping addition (the last corrupt word is the
     // XOR / the negated sum of the others), or carry one common bit mask on a "rectangle" of cards
@@ -592,7 +647,7 @@ pub fn run(ctx: &Ctx) -> Rep {
     rep.merge(r5);
 
     let mut acc = mk();
-    for x in x1.into_iter().chain(x1b).chain(x1c).chain(x2).chain(x2b).chain(x2c).chain(x4b6).chain(x4b7).chain(x3).chain(x4).chain(x5) {
+    for x in x1.into_iter().chain(x1b).chain(x1c).chain(x2).chain(x2b).chain(x2d).chain(x2c).chain(x4b6).chain(x4b7).chain(x3).chain(x4).chain(x5) {
         for k in 0..8 {
             acc.valid[k] += x.valid[k];
             acc.invalid[k] += x.invalid[k];
@@ -630,7 +685,7 @@ pub fn run(ctx: &Ctx) -> Rep {
     rep.rule = format!(
         "(1) all 2^32 words (a 1-in-16 share of the 2^16-word blocks in the checked leg) placed in {} next to distinct real cards, \
          and every word within Hamming distance 2 of a card or blank in every slot of every size; (2) for n=2..7 every set partition of the slots x every assignment of \
-         {{card, blank, near-miss, arbitrary}} to the blocks x {} seeded instantiations, and all-card instantiations with each block in turn holding the smallest / largest card, and hands whose non-card words cancel under XOR / addition; (3) all ordered arrays over {{52 cards, blank}} for n in {:?}; \
+         {{card, blank, near-miss, arbitrary}} to the blocks x {} seeded instantiations, and all-card instantiations with each block in turn holding the smallest / largest card, hands whose non-card words cancel under XOR / addition, and hands drawn from one or two ranks with one duplicate at every position pair; (3) all ordered arrays over {{52 cards, blank}} for n in {:?}; \
          (4) all 2,598,960 valid five-card hands, and every six-/seven-card hand with five/six or more suited cards and every seven-card hand holding four of a kind in 8 seeded slot orders; (5) {} seeded hands per size 5..7. distinct = enumerated cases (1,3,4) + hash-set count of the generated hands (2,5); \
          every case is non-trivial (each runs the validity oracle against the crate)",
         if every_slot { "every slot of every size 2..7" } else { "one seeded slot of a Two (and of a Five for 1-in-16 blocks)" },
